@@ -427,7 +427,25 @@ func cancelWorker(req N) (resp N) {
 		if reuse == "during" {
 			first = src
 		}
-		_, ferr := risor.Eval(ctx, first, append(opts, risor.WithVM(machine))...)
+		// parse and compile with a live context (the parser gives up at once under a done context): the runs
+		// themselves get the script's context
+		cfg := risor.NewConfig(opts...)
+		comp := func(text string) (*compiler.Code, error) {
+			prog, perr := parser.Parse(context.Background(), text)
+			if perr != nil {
+				return nil, perr
+			}
+			return compiler.Compile(prog, cfg.CompilerOpts()...)
+		}
+		firstCode, cerr := comp(first)
+		if cerr != nil {
+			return N{"k": "nofirst", "msg": cerr.Error()}
+		}
+		secondCode, cerr := comp(src)
+		if cerr != nil {
+			return N{"k": "nofirst", "msg": cerr.Error()}
+		}
+		ferr := machine.RunCode(ctx, firstCode, cfg.VMOpts()...)
 		if reuse == "idle" {
 			if ferr != nil {
 				return N{"k": "nofirst", "msg": ferr.Error()}
@@ -439,7 +457,7 @@ func cancelWorker(req N) (resp N) {
 		}
 		t0 = time.Now()
 		cancelledAt.Store(t0.UnixNano())
-		_, err = risor.Eval(ctx, src, append(opts, risor.WithVM(machine))...)
+		err = machine.RunCode(ctx, secondCode, cfg.VMOpts()...)
 	} else {
 		_, err = risor.Eval(ctx, src, risor.WithOS(vos), risor.WithConcurrency(), risor.WithGlobal("tick", tick))
 	}
